@@ -32,6 +32,7 @@ def build(ctx):
     plan = [("vs_msg_le.xml", "17", "checked"), ("vs_msg_be.xml", "20", "checked")] if ctx.quick else \
         [("vs_msg_le.xml", "17", "checked"), ("vs_msg_be.xml", "17", "checked"), ("vs_msg_le.xml", "20", "checked"), ("vs_msg_be.xml", "20", "checked"),
          ("vs_msg_le.xml", "11", "checked"), ("vs_msg_be.xml", "14", "checked"), ("vs_msg_le.xml", "17", "unchecked")]
+    plan = hgen.plan_env(plan)
     for (xml, std, mode) in plan:
         sch, inc = hgen.gen_headers(ctx, xml)
         for msg in sch.messages:
